@@ -87,6 +87,7 @@ extern "C" void harness(void)
       want = want > wb ? want : wb;
 #endif
       VCLAIM(5, h[i]->order() == want, "C05.order_is_max_cost_over_sequences");
+      VCLAIM(2, h[i]->order() == want, "C02.cost_is_the_largest_over_the_named_sequences");
       VCLAIM(5, h[i]->can_be_called() == (want != ~0U), "C05.eligible_iff_all_pending_predecessors_satisfied");
     }
     (void)tag;
